@@ -96,6 +96,94 @@ def ops_for(a_ori, b_ori, p, q, area, t, u, action):
     return out
 
 
+LIMB = 2 ** 29
+NLIMBS = 3
+
+
+def _split(v, part):
+    """signed limb `part` (centred remainders, base 2^29; the last limb keeps what is left) of every integer inside a JSON value"""
+    if isinstance(v, bool) or isinstance(v, str):
+        return v
+    if isinstance(v, int):
+        for k in range(NLIMBS):
+            lo = ((v + LIMB // 2) % LIMB) - LIMB // 2 if k < NLIMBS - 1 else v
+            if k == part:
+                return lo
+            v = (v - lo) // LIMB
+    if isinstance(v, list):
+        return [_split(x, part) for x in v]
+    if isinstance(v, dict):
+        return {k: _split(x, part) for k, x in v.items()}
+    return v
+
+
+def _fits(v):
+    if isinstance(v, bool) or isinstance(v, str):
+        return True
+    if isinstance(v, int):
+        return abs(v) < 2 ** 30
+    if isinstance(v, list):
+        return all(_fits(x) for x in v)
+    if isinstance(v, dict):
+        return all(_fits(x) for x in v.values())
+    return True
+
+
+def huge_ops_for(a_ori, b_ori, p, q, t, u, action):
+    """the coordinate-linear operators on coordinates far beyond 64 bits.  Every operator here is Z-linear in the
+    coordinates of its arguments (coefficients 0, 1, -1) apart from a constant unit step, so with
+    c = l0 + l1 * 2^29 + l2 * 2^58 (|l_k| < 2^25, so that sums of four limbs stay below half the base) the result
+    splits uniquely into the operator applied limb by limb: each limb is an ordinary record for Trace_Geom.  The unit
+    step of front / next_position belongs to limb 0; on the higher limbs these two operators are the identity (pos_add 0)."""
+    out = []
+
+    def op(name, a, b, compute, hi_as=None):
+        try:
+            res = compute()
+        except Exception as e:
+            out.append({'kind': 'raises', 'op': name + '_huge', 'outcome': type(e).__name__, 'expect': 'ok'})
+            return
+        if not all(_fits(_split(res, part)) for part in range(NLIMBS)):
+            out.append({'kind': 'raises', 'op': name + '_huge', 'outcome': 'result of another magnitude than the arguments', 'expect': 'ok'})
+            return
+        for part in range(NLIMBS):
+            if part >= 1 and hi_as is not None:
+                out.append({'kind': 'op', 'op': hi_as, 'a': _split(a['p'], part), 'b': [0, 0], 'res': _split(res, part), 'limb': part})
+            else:
+                out.append({'kind': 'op', 'op': name, 'a': _split(a, part), 'b': _split(b, part), 'res': _split(res, part), 'limb': part})
+
+    op('rot_pos', a_ori, p, lambda: pj(OF[a_ori] * P(p)))
+    op('rot_pos', a_ori, p, lambda: pj(P(p) * OF[a_ori]))
+    op('pos_add', p, q, lambda: pj(P(p) + P(q)))
+    op('pos_sub', p, q, lambda: pj(P(p) - P(q)))
+    op('pos_neg', p, 0, lambda: pj(-P(p)))
+    op('t_mul', t, u, lambda: tj(TR(t) * TR(u)))
+    op('t_neg', t, 0, lambda: tj(-TR(t)))
+    op('t_apply_pos', t, p, lambda: pj(TR(t) * P(p)))
+    op('t_apply_ori', t, a_ori, lambda: ON[TR(t) * OF[a_ori]])
+    op('next_position', t, action, lambda: pj(get_next_position(P(t['p']), OF[t['o']], Action[action])), hi_as='pos_add')
+    op('front', t, 0, lambda: pj(Agent(P(t['p']), OF[t['o']]).front()), hi_as='pos_add')
+
+    def law(name, lhs, rhs):
+        try:
+            l, r = lhs(), rhs()
+        except Exception as e:
+            out.append({'kind': 'raises', 'op': name + '_huge', 'outcome': type(e).__name__, 'expect': 'ok'})
+            return
+        if not all(_fits(_split(x, part)) for part in range(NLIMBS) for x in (l, r)):
+            out.append({'kind': 'raises', 'op': name + '_huge', 'outcome': 'result of another magnitude than the arguments', 'expect': 'ok'})
+            return
+        for part in range(NLIMBS):
+            out.append({'kind': 'law', 'op': name, 'lhs': _split(l, part), 'rhs': _split(r, part), 'limb': part})
+
+    T, U = TR(t), TR(u)
+    law('t_inverse', lambda: tj(T * (-T)), lambda: tj(Transform(Position(0, 0), Orientation.F)))
+    law('t_action', lambda: pj((T * U) * P(p)), lambda: pj(T * (U * P(p))))
+    law('rot_inverse', lambda: pj((-OF[a_ori]) * (OF[a_ori] * P(p))), lambda: list(p))
+    law('rot_action', lambda: pj(OF[a_ori] * (OF[b_ori] * P(p))), lambda: pj((OF[a_ori] * OF[b_ori]) * P(p)))
+    return out
+
+
 def run(ctx, replay=None):
     rng = random.Random(ctx.seed)
     ctx.cov['rule'] = ('(i) TLAPS proofs of the group / action / transform / area laws over Int (GVGeometryProofs); (ii) the same laws and the finite-set statements '
@@ -103,7 +191,7 @@ def run(ctx, replay=None):
                        'get_manhattan_boundary run on the exhaustive small domain and on random coordinates up to 2^29 and compared by TLC with the specification; '
                        'distinct_nontrivial = distinct (operator, arguments) records')
     ctx.assumptions += ['unbounded quantification is proved for the specification; the code is bound to it by exhaustive small + random large agreement '
-                        '(the operators branch on the orientation only, never on coordinates)', 'TLC integers are 32-bit: coordinates below 2^29']
+                        '(the operators branch on the orientation only, never on coordinates)', 'TLC integers are 32-bit: coordinates below 2^29 are compared directly; the coordinate-linear operators are additionally run on coordinates up to 2^83 (2^53 + 1 and its neighbours included) and compared limb by limb (three signed limbs, base 2^29)']
     # (i) proofs
     t0 = time.time()
     tmp = tempfile.mkdtemp(prefix='tlaps_')
@@ -226,6 +314,15 @@ def run(ctx, replay=None):
         t = {'p': [p[0] // 2, p[1] // 2], 'o': a_ori}
         u = {'p': [q[0] // 2, q[1] // 2], 'o': b_ori}
         recs += ops_for(a_ori, b_ori, [p[0] // 2, p[1] // 2], [q[0] // 2, q[1] // 2], area, t, u, rng.choice(list(Action)).name)
+    # coordinates beyond 64 bits, validated limb by limb
+    for _ in range(300 if ctx.quick else 5000):
+        def hc():
+            def limb():
+                return rng.choice([0, rng.randint(-2 ** 25 + 1, 2 ** 25 - 1), rng.randint(-3, 3), rng.choice([-1, 1]) * 2 ** rng.randint(0, 24)])
+            return limb() + limb() * LIMB + limb() * LIMB ** 2
+        p, q = [hc(), hc()], [hc(), hc()]
+        a_ori, b_ori = rng.choice(ORIS), rng.choice(ORIS)
+        recs += huge_ops_for(a_ori, b_ori, p, q, {'p': [hc(), hc()], 'o': a_ori}, {'p': [hc(), hc()], 'o': b_ori}, rng.choice(list(Action)).name)
     for idx, r in enumerate(recs):
         r['id'] = idx
         r.setdefault('op', '')
